@@ -54,7 +54,16 @@ def cases(draw):
         for f in c["prog"]["splitters"] or []:
             if f in base:
                 c["inputs"].append(dict(base, **{f: M.enc(draw(st.sampled_from(["\ud800", "a\udfffb", 10 ** 5000])))}))
+                # ... and the same in EVERY other input (some are unroutable, some lack a field): two things go wrong at once,
+                # and both sides must report the same one
+                bad = draw(st.sampled_from([M.enc(10 ** 5000), M.enc("k\udcffk"), {"t": "bomb", "v": "NotImplementedError"}]))
+                c["inputs"] += [dict(i, **{f: bad}) for i in c["inputs"][:6] if f in i]
                 break
+        # a value whose every use raises an exception without arguments, in any one field
+        if base:
+            f = draw(st.sampled_from(sorted(base)))
+            c["inputs"].append(dict(base, **{f: M.enc(M.Bomb(draw(st.sampled_from(sorted(M.Bomb.EXCS)))))}))
+            c["inputs"].append(dict(base, zz_unrelated=M.enc(M.Bomb("KeyError"))))
     return c
 
 
